@@ -219,7 +219,7 @@ def linear_diattenuator(alpha, theta=0, shape=None):
     diattenuator : ndarray
         numpy array containing the diattenuator matrices
     """
-    assert (alpha >= 0) and (alpha <= 1), f"alpha cannot be less than 0 or greater than 1, got: {alpha}"
+    assert np.all(alpha >= 0) and np.all(alpha <= 1), f"alpha cannot be less than 0 or greater than 1, got: {alpha}"
 
     jones = _empty_jones(shape=shape)
     jones[..., 0, 0] = 1
